@@ -165,7 +165,7 @@ fn c05_create_df4() {
     vassert!(row_alt_ok(want, None, p.altitude), "C05: created row's altitude is not the AC13 decoding");
 }
 
-// @harness props=C05,C11 tier=quick cap=1500 mem=24
+// @harness props=C05,C11:thorough tier=quick cap=1500 mem=24
 // row step: any DF20 frame on an arbitrary row (capability, BDS 1,7 flags, -R symbolic; callsign stub)
 #[cfg_attr(kani, kani::proof)]
 #[cfg_attr(kani, kani::unwind(90))]
@@ -229,15 +229,15 @@ macro_rules! row_tc {
         }
     };
 }
-// @harness name=c05_row_tc11 props=C05,C11 tier=quick cap=1500
+// @harness name=c05_row_tc11 props=C05,C11:thorough tier=quick cap=1500
 // row step: any even DF17 TC11 squitter on an arbitrary row, -U/-R symbolic, position decode stubbed (no fix)
 row_tc!(c05_row_tc11, 11, 0);
-// @harness name=c05_row_tc9 props=C05,C11 tier=thorough cap=900
+// @harness name=c05_row_tc9 props=C05,C11:thorough tier=thorough cap=900
 // row step: TC9, odd frame
 row_tc!(c05_row_tc9, 9, 1);
-// @harness name=c05_row_tc18 props=C05,C11 tier=thorough cap=900
+// @harness name=c05_row_tc18 props=C05,C11:thorough tier=thorough cap=900
 // row step: TC18, even frame
 row_tc!(c05_row_tc18, 18, 0);
-// @harness name=c05_row_tc13 props=C05,C11 tier=thorough cap=900
+// @harness name=c05_row_tc13 props=C05,C11:thorough tier=thorough cap=900
 // row step: TC13, odd frame
 row_tc!(c05_row_tc13, 13, 1);
